@@ -268,6 +268,7 @@ def run_history(cfg, history, col, check=True):
                 allchunks += [(0, cc) for cc in pipeline.chunk_grid(
                     SIZE0, [4, 4, 4]) if (0, cc) not in allchunks]
             for hname, h in handles:
+                held = []
                 for si, cc in allchunks:
                     c2 = dict(case, read=[si, list(cc)], handle=hname)
                     try:
@@ -289,10 +290,23 @@ def run_history(cfg, history, col, check=True):
                                     "C03/read/differs-from-written/"
                                     + cfg["enc"]["encoding"], c2,
                                     "identical shape, dtype, values", why)
+                            else:
+                                held.append((c2, got, model[(si, cc)]))
                     elif err is None:
                         col.violation("C03/read/unwritten-chunk-returned-"
                                       "data", c2, "an error",
                                       "array of shape %r" % (got.shape,))
+                # a caller that reads several chunks and then uses them: the
+                # arrays returned earlier must still hold their values after
+                # the later reads through the same handle
+                for c2, got, want in held:
+                    why = compare(cfg, got, want)
+                    if why:
+                        col.violation(
+                            "C03/read/earlier-result-changed-by-a-later-"
+                            "read/" + cfg["enc"]["encoding"], c2,
+                            "the array as returned", why)
+                        break
         key = repr((dir_tree(d), sorted((k, v.tobytes())
                                         for k, v in model.items())))
         return key, len(model)
